@@ -38,7 +38,8 @@ def run(tier):
         if res.violated:
             rep.violation({"kind": "design", "invariant": res.violated}, {"tlc": res.error_text})
     # 2. pairs replayed on the real operators
-    pairs = [("c07_pairs_d1", consts(1, 3, [0, 1, 2], 3, False, True), []),
+    pairs = [("c07_pairs_d0", consts(0, 0, [0, 1, 2], 1, False, True), []),
+             ("c07_pairs_d1", consts(1, 3, [0, 1, 2], 3, False, True), []),
              ("c07_pairs_d2", consts(2, 2, [0, 1], 4, False, True), []),
              ("c07_pairs_d2w", consts(2, 3, [0, 1], 6, False, True), ["lean"]),
              ("c07_pairs_d3", consts(3, 2, [0, 1], 4, False, True), ["lean"])]
